@@ -38,8 +38,11 @@ RULE = ("seeded class-based raw matrices: 1-40 taxa (10%: up to 200), 1-4 traits
         "(counted only) or single-finite-entry columns; int64 input dtype; the three concrete breeding-value classes.  "
         "Operation histories of 1-10 steps over select/delete/insert/adjoin/concat (new object) and append/incorp/remove/"
         "reorder/sort/group (in place), specific and axis-generic forms, donors standardised separately, donors given as "
-        "matrices or as raw arrays, self-donation, repeated taxa.  Non-trivial: more than one taxon or trait; distinct = "
-        "digest of the raw inputs (and of the initial taxa and history length).")
+        "matrices or as raw arrays, self-donation, repeated taxa; the taxa universe of a history has 80 rows, so that the "
+        "subsets met along a history differ in location, scale, constancy and NaN pattern.  A history stops at the first "
+        "operation whose result no longer reproduces the raw values (later states descend from a corrupted object).  "
+        "Non-trivial: more than one taxon or trait; distinct = digest of the raw inputs (and of the initial taxa and "
+        "history length).")
 ASSUME = [
     "standard deviation / variance are the population forms (ddof=0), i.e. the ones for which 'centred and scaled' stored "
     "columns have unit sd and which numpy's std/var compute by default",
@@ -50,6 +53,12 @@ ASSUME = [
     "'unscale: whether to transform results to their unscaled values'); checked only on NaN-free columns",
     "append_taxa / incorp_taxa are given breeding-value matrices (what a raw ndarray means to the inherited in-place forms is "
     "not defined); adjoin_taxa / insert_taxa are given matrices or raw ndarrays on the original scale (their documented use)",
+    "results of operations were standardised from values the library reconstructed to rounding error: for them a constant "
+    "trait may carry a scale at rounding level instead of exactly 1 (counted, not judged); exact unit scale is demanded of "
+    "matrices built directly from raw values",
+    "finding keys: input class = class of the raw column for objects returned by a constructor / non-mutating operation, "
+    "'taxa set changed in place' for objects modified by append/incorp/remove; a badly standardised result of an operation "
+    "that called from_numpy (recorded by a wrapper installed from the harness) is attributed to from_numpy",
     "tolerances: pbmon/oracle/bvscale.py (round trip 4*eps*(k+1)*(|raw|+2M) after k operations, summaries 1e-12*(k+1)*M, "
     "M = largest finite magnitude of the trait)",
 ]
@@ -714,7 +723,7 @@ def case_generic(ctx, c):
               witness={"raw": Rf, "stored": flat(sm.mat), "location": sm.location, "scale": sm.scale, "first_bad": first}, coords=coords)
 
 
-FAMILIES = {"build": (case_build, 12000, 480000), "ops": (case_ops, 7200, 288000), "generic": (case_generic, 3600, 96000)}
+FAMILIES = {"build": (case_build, 12000, 320000), "ops": (case_ops, 7200, 192000), "generic": (case_generic, 3600, 64000)}
 
 
 def run_shard(ctx):
